@@ -507,6 +507,44 @@ func (c *evalCtx) evalCall(n *ast.CallExpr) Value {
 		a := c.deref(c.eval(n.Args[0]))
 		b := c.deref(c.eval(n.Args[1]))
 		return VBool{BoolC(sameOpaque(a, b))}
+	case "pinned":
+		// pinned(x): every leaf of x is a build-time constant or a public input of the circuit root, or
+		// the path constrains it to equal a term over such values only (decided syntactically)
+		v := c.deref(c.eval(n.Args[0]))
+		ok := true
+		var check func(v Value)
+		check = func(v Value) {
+			switch x := v.(type) {
+			case VSlice:
+				if x.Obj == nil && x.Pure == nil {
+					return
+				}
+				boundSeq++
+				j := Bound(fmt.Sprintf("j$%d", boundSeq), SInt)
+				check(c.withHeap(func() Value { return c.e.sliceAt(c.s, x, j) }))
+				return
+			case VStruct:
+				for _, f := range x.F {
+					check(f)
+				}
+				return
+			case VArr:
+				for _, f := range x.E {
+					check(f)
+				}
+				return
+			case VPtr:
+				check(c.deref(x))
+				return
+			}
+			for _, t := range c.flat(v) {
+				if !c.e.termPinned(c.s, t) {
+					ok = false
+				}
+			}
+		}
+		check(v)
+		return VBool{BoolC(ok)}
 	case "deferred":
 		nm := c.eval(n.Args[0]).(VStr).T.Name
 		p, ok := c.eval(n.Args[1]).(VPtr)
@@ -943,4 +981,44 @@ func (e *Engine) compileRecDef(rd *RecDef) {
 	}
 	rd.compiled = true
 	e.note("recursive spec function " + rd.Name + " is a definition by recursion on an index towards the sequence length (well-foundedness by inspection)")
+}
+
+func (e *Engine) varClass(name string) string {
+	n := strings.TrimPrefix(name, "f$")
+	best, bl := "constant", -1
+	found := false
+	for _, lc := range e.leafClass {
+		if strings.HasPrefix(n, lc.prefix) && len(lc.prefix) > bl {
+			best, bl, found = lc.class, len(lc.prefix), true
+		}
+	}
+	if !found {
+		return "other"
+	}
+	return best
+}
+
+// termPinned: the term mentions no prover-chosen (secret or hint) value, or the path condition
+// contains an equality of the term with one that does not.
+func (e *Engine) termPinned(s *State, t *Term) bool {
+	free := func(t *Term) bool {
+		for name := range freeVars(t) {
+			cl := e.varClass(name)
+			if cl == "secret" || strings.HasPrefix(name, "hint.") || cl == "other" && strings.HasPrefix(name, "ret.") {
+				return false
+			}
+		}
+		return true
+	}
+	if free(t) {
+		return true
+	}
+	for _, h := range s.pc {
+		if h.Op == "=" {
+			if h.Args[0] == t && free(h.Args[1]) || h.Args[1] == t && free(h.Args[0]) {
+				return true
+			}
+		}
+	}
+	return false
 }
